@@ -98,6 +98,8 @@ SEEDS = {
            "a sequence whose relative view consists of waits only (padded empty sequence, rest piece of a split): the absolute view is empty, the duration is lost / the sequence unreadable"),
  "C03-c": ("C03", "tokenise: `state_dict: dict = None` + `if state_dict is None: state_dict = dict()` replaced by the shared mutable default `state_dict: dict = {}`",
            "an earlier stateless tokenise call, an un-fused running value with running values on, and a first note whose value equals the last value of the earlier call: the whole-piece stream omits the explicit token"),
+ "C07-c": ("C07", "Sequence.normalise: `self.invalidate_abs()` dropped after `self.rel.normalise_relative()`",
+           "the absolute view materialised before normalising, an input normalisation changes, and the result read through the absolute view"),
  "C17-a": ("C17", "equals: the tick comparison moved into the NOTE_ON branch; time and key signatures are compared by value only",
            "two sequences identical except for the tick of one signature, with no compared event of the channel between the old and the new tick"),
 }
